@@ -109,7 +109,8 @@ Apply(e) ==
       [] e.ev = "rx" ->
            LET r == Notify(ns[n], Cfg(n), e.id, e.data, e.t) IN
            IF r.unmodeled THEN Fail("input outside this specification")
-           ELSE IF Has2(e, "exc") # r.exc THEN Fail("rx exception behaviour")
+           \* (a frame fed in through the python-can listener: the listener logs and swallows exceptions of notify())
+           ELSE IF Has2(e, "exc") # (r.exc /\ ~Has2(e, "flags")) THEN Fail("rx exception behaviour")
            ELSE S([ns EXCEPT ![n] = r.ns], pc, [pend EXCEPT ![n] = r.out \o @], dm, bm, {})
       [] e.ev = "ptx" ->      \* a frame put on the bus by the reference peer (not a stack under test)
            LET b2 == BmStep(bm, dm.acc, Tr.cfg, n, e) IN S(ns, pc, pend, dm, b2.bm, IF Tr.expect.bus THEN b2.bad ELSE {})
